@@ -8,15 +8,16 @@
        (C09_counted_loop_terminates); a rank decreasing along call edges bounds call chains (C09_call_chain_bounded).
    (2) ABOUT parser.c, by computation on NV.gen.ParserLoops (regenerated from the clang AST of /repo/src/parser.c on
        every run by tools/gen/gen_parserloops.py -- rules in its header, trusted):
-       the loops that do NOT pass the rule are EXACTLY the loops listed as open findings (today: the two argument loops of
-       parse_prefix_op), all others progress; the cursor functions that lie on a recursion cycle NOT passing a depth guard
-       are EXACTLY the listed findings (today: parse_primary [unary chains], parse_if_expression [else-if chains],
-       parse_statement [nested unsafe], parse_type_with_element + parse_function_signature [nested types]); without them
-       the unguarded call graph is acyclic.  Closing a finding in known_findings.d/C09.json turns the corresponding
-       statement into the unrestricted one; a NEW non-progressing loop or unguarded cycle breaks the theorem.
-   (3) ABOUT the parser model (NV.Front.ExprParser, tied to the real parser by the C07 correspondence): the two inputs
-       behind the loop finding really do not terminate in the model: `(+ 1 else)` and 1001 nested `(+ 1 ..)` forms = Hang
-       (the second shows that nesting beyond the limit is NOT reported as an error on that path: _refuted).
+       the loops that do NOT pass the rule are EXACTLY the loops listed as open findings, and the cursor functions that lie
+       on a recursion cycle NOT passing a depth guard are EXACTLY the listed findings.  Since the parser fixes ca1fd81 all
+       eight C09 findings are closed, both lists are EMPTY, and the statements are the unrestricted ones: EVERY loop of
+       parser.c passes the progress rule (C09_all_loops_progress), the unguarded call graph of the cursor functions is
+       acyclic (C09_all_cycles_guarded).  A NEW non-progressing loop or unguarded cycle breaks the theorems.
+   (3) ABOUT the parser model (NV.Front.ExprParser, tied to the real parser by the C07 correspondence and by the witness
+       comparison of tools/props/c09.py): a failed argument of a prefix form ends the form with an error
+       (C09_prefix_arg_failure_reported: `(+ 1 else)`), nesting beyond MAX_RECURSION_DEPTH is reported as an error on
+       every recursive path of the expression grammar: groups, prefix forms, unary chains (C09_depth_limit_reported);
+       the model has no non-terminating outcome left (the constructor Hang of the first version is gone).
    (4) ABOUT the tokenizer model (NV.Front.Lexer, compared token for token with the real tokenize): total, every loop
        iteration consumes a byte, exactly one EOF token at the end, at most one token per source byte.
    PARTIAL: the parser as a whole is not modelled (only its loops / recursion structure and the expression fragment); the
@@ -92,20 +93,30 @@ Print Assumptions C09_unguarded_chains_are_short.
 Example C09_guarded_functions : mem "parse_block" depth_guarded = true /\ mem "parse_expression" depth_guarded = true.
 Proof. vm_compute. split; reflexivity. Qed.
 
-(* ---------------------------------------------------------------- (3) the hanging inputs, in the parser model *)
-(* return (+ 1 else) : the argument loop of the prefix form spins *)
-Theorem C09_prefix_arg_loop_hangs :
-  parse [T K_LPAREN; T K_PLUS; Tok K_NUMBER b_1; T K_ELSE; T K_RPAREN] = Hang.
-Proof. vm_compute. reflexivity. Qed.
-Print Assumptions C09_prefix_arg_loop_hangs.
+(* both lists are empty on the current tree: the two statements above are about ALL loops / ALL cursor functions *)
+Theorem C09_no_open_loop_or_recursion_finding :
+  listed_loop_findings = [] /\ listed_cycle_findings = [] /\
+  forallb progresses parser_loops = true /\ acyclic parser_unguarded_calls = true.
+Proof. vm_compute. repeat split; reflexivity. Qed.
+Print Assumptions C09_no_open_loop_or_recursion_finding.
 
-(* nesting beyond MAX_RECURSION_DEPTH is reported for groups (C07_depth_limit_reported) but NOT for prefix forms: the
-   depth guard returns NULL inside the same argument loop *)
-Theorem C09_depth_limit_reported_refuted :
-  parse (pladder MAXD [Tok K_NUMBER b_1]) = Hang /\
-  (match parse (pladder (MAXD - 1) [Tok K_NUMBER b_1]) with Ok (Some _) [] false => true | _ => false end) = true.
-Proof. vm_compute. split; reflexivity. Qed.
-Print Assumptions C09_depth_limit_reported_refuted.
+(* ---------------------------------------------------------------- (3) the former hanging inputs, in the parser model *)
+(* return (+ 1 else) : the failed argument ends the prefix form: NULL and the error flag, cursor on the offending token *)
+Theorem C09_prefix_arg_failure_reported :
+  parse [T K_LPAREN; T K_PLUS; Tok K_NUMBER b_1; T K_ELSE; T K_RPAREN] = Ok None [T K_ELSE; T K_RPAREN] true.
+Proof. vm_compute. reflexivity. Qed.
+Print Assumptions C09_prefix_arg_failure_reported.
+
+(* nesting beyond MAX_RECURSION_DEPTH is reported as an error on every recursive path of the expression grammar *)
+Definition reported (r : res) : bool := match r with Ok None _ true => true | _ => false end.
+Definition accepted (r : res) : bool := match r with Ok (Some _) [] false => true | _ => false end.
+Theorem C09_depth_limit_reported :
+  reported (parse (pladder MAXD [Tok K_NUMBER b_1])) = true /\ accepted (parse (pladder (MAXD - 1) [Tok K_NUMBER b_1])) = true /\
+  reported (parse (ladder MAXD [Tok K_NUMBER b_1; T K_PLUS; Tok K_NUMBER b_2])) = true /\
+  accepted (parse (ladder (MAXD - 1) [Tok K_NUMBER b_1; T K_PLUS; Tok K_NUMBER b_2])) = true /\
+  reported (parse (uladder MAXD [Tok K_NUMBER b_1])) = true /\ accepted (parse (uladder (MAXD - 1) [Tok K_NUMBER b_1])) = true.
+Proof. vm_compute. repeat split; reflexivity. Qed.
+Print Assumptions C09_depth_limit_reported.
 
 (* ---------------------------------------------------------------- (4) the tokenizer *)
 Theorem C09_tokenize_total : forall src, tokenize src <> LFuel.
